@@ -64,6 +64,71 @@ theorem find_delAll (m : Map κ ν) (ks : List κ) (k' : κ) :
       · have : ¬ k' = k := fun e => h2 e.symm
         simp [h2, this]
 
+theorem mem_entriesAux (m : Map κ ν) : ∀ (seen : List κ) (k : κ) (v : ν),
+    (k, v) ∈ entriesAux seen m ↔ k ∉ seen ∧ m.find k = some v := by
+  induction m with
+  | nil => intro seen k v; simp [entriesAux, find]
+  | cons e t ih =>
+    obtain ⟨k0, v0⟩ := e
+    intro seen k v
+    unfold entriesAux
+    by_cases hs : seen.contains k0 = true
+    · rw [if_pos hs, ih]
+      have hk0 : k0 ∈ seen := by simpa using hs
+      constructor
+      · rintro ⟨h1, h2⟩
+        have : ¬ k0 = k := fun e => h1 (e ▸ hk0)
+        exact ⟨h1, by simp [find, this, h2]⟩
+      · rintro ⟨h1, h2⟩
+        have : ¬ k0 = k := fun e => h1 (e ▸ hk0)
+        simp only [find, this, if_false] at h2
+        exact ⟨h1, h2⟩
+    · rw [if_neg hs]
+      have hk0 : k0 ∉ seen := by simpa using hs
+      simp only [List.mem_cons, Prod.mk.injEq, ih, not_or]
+      by_cases e : k0 = k
+      · subst e
+        simp only [find, if_true]
+        constructor
+        · rintro (⟨_, hv⟩ | ⟨⟨hne, _⟩, _⟩)
+          · exact ⟨hk0, by rw [hv]⟩
+          · exact absurd trivial hne
+        · rintro ⟨_, hv⟩
+          exact Or.inl ⟨trivial, (Option.some.inj hv).symm⟩
+      · simp only [find, e, if_false]
+        have e' : ¬ k = k0 := fun x => e x.symm
+        constructor
+        · rintro (⟨hk, _⟩ | ⟨⟨_, h1⟩, h2⟩)
+          · exact absurd hk e'
+          · exact ⟨h1, h2⟩
+        · rintro ⟨h1, h2⟩
+          exact Or.inr ⟨⟨e', h1⟩, h2⟩
+
+theorem mem_entries (m : Map κ ν) (k : κ) (v : ν) : (k, v) ∈ entries m ↔ m.find k = some v := by
+  unfold entries
+  rw [mem_entriesAux]
+  simp
+
+theorem entriesAux_pairwise (m : Map κ ν) : ∀ (seen : List κ),
+    (entriesAux seen m).Pairwise (fun e f => e.1 ≠ f.1) := by
+  induction m with
+  | nil => intro _; exact List.Pairwise.nil
+  | cons e t ih =>
+    obtain ⟨k0, v0⟩ := e
+    intro seen
+    unfold entriesAux
+    split
+    · exact ih seen
+    · refine List.pairwise_cons.mpr ⟨?_, ih _⟩
+      intro f hf
+      obtain ⟨k, v⟩ := f
+      have := ((mem_entriesAux t (k0 :: seen) k v).mp hf).1
+      intro e
+      have e : k0 = k := e
+      exact this (by rw [← e]; exact List.mem_cons_self ..)
+
+theorem entries_pairwise (m : Map κ ν) : (entries m).Pairwise (fun e f => e.1 ≠ f.1) := entriesAux_pairwise m []
+
 end Map
 
 open Map
@@ -521,15 +586,156 @@ theorem mintingEnabled_some {r : Reg Id} {t d : String} {p : Pair} (h : mintingE
             have := Classical.not_not.mp heq
             rw [this, hid]
 
-theorem convert_inv {r : Reg Id} (h : Inv H r) (t d : String) (l : List Addr) : Inv H (convert H r t d l).1 := by
+theorem convert_inv {r : Reg Id} (h : Inv H r) (vb : Bool) (t d : String) (l : List Addr) : Inv H (convert H r vb t d l).1 := by
   unfold convert
   repeat' split
   all_goals try exact h
-  rename_i _ p hme hl _ r2 hdel
+  rename_i _ _ p hme hl _ r2 hdel
   obtain ⟨id, hp, _, _⟩ := mintingEnabled_some hme
   rw [deleteTokenPair_stored H h hp] at hdel
   have := Option.some.inj hdel; subst this
   exact inv_delete H h id p hp
+
+/-! ### restart of the module from its own export is the identity -/
+
+/-- two registries with the same content (as key-value stores) -/
+structure Equiv (r r' : Reg Id) : Prop where
+  enabled : r'.enabled = r.enabled
+  metas : r'.metas = r.metas
+  pairs : ∀ id, r'.pairs.find id = r.pairs.find id
+  byErc : ∀ a, r'.byErc.find a = r.byErc.find a
+  byDen : ∀ d, r'.byDen.find d = r.byDen.find d
+
+theorem Inv.of_equiv {r r' : Reg Id} (h : Inv H r) (e : Equiv r r') : Inv H r' where
+  found := by intro id p hp; rw [e.pairs] at hp; have := h.found id p hp; rw [e.byErc]; exact ⟨this.1, fun d hd => by rw [e.byDen]; exact this.2 d hd⟩
+  ercOk := by intro a id ha; rw [e.byErc] at ha; obtain ⟨p, hp, hpa⟩ := h.ercOk a id ha; exact ⟨p, by rw [e.pairs]; exact hp, hpa⟩
+  denOk := by intro d id hd; rw [e.byDen] at hd; obtain ⟨p, hp, hpd⟩ := h.denOk d id hd; exact ⟨p, by rw [e.pairs]; exact hp, hpd⟩
+  keyed := by intro id p hp; rw [e.pairs] at hp; exact h.keyed id p hp
+  backed := by intro d id hd; rw [e.byDen] at hd; rw [e.metas]; exact h.backed d id hd
+
+/-- what `InitGenesis` of a list of pairs with pairwise different ids, contracts and denominations writes -/
+theorem initGenesis_spec (ps : List Pair) : ∀ (q : Reg Id),
+    (∀ p, p ∈ ps → p.denoms ≠ []) →
+    ps.Pairwise (fun p p' => p.addr ≠ p'.addr ∧ (∀ d, d ∈ p.denoms → d ∉ p'.denoms) ∧ getID H p ≠ getID H p') →
+    ∃ q', initGenesis H q ps = some q' ∧ q'.enabled = q.enabled ∧ q'.metas = q.metas ∧
+      (∀ p, p ∈ ps → ∀ id, getID H p = some id →
+          q'.pairs.find id = some p ∧ q'.byErc.find p.addr = some id ∧ ∀ d, d ∈ p.denoms → q'.byDen.find d = some id) ∧
+      (∀ id, (∀ p, p ∈ ps → getID H p ≠ some id) → q'.pairs.find id = q.pairs.find id) ∧
+      (∀ a, (∀ p, p ∈ ps → p.addr ≠ a) → q'.byErc.find a = q.byErc.find a) ∧
+      (∀ d, (∀ p, p ∈ ps → d ∉ p.denoms) → q'.byDen.find d = q.byDen.find d) := by
+  induction ps with
+  | nil =>
+    intro q _ _
+    exact ⟨q, rfl, rfl, rfl, fun _ hp => (nomatch hp), fun _ _ => rfl, fun _ _ => rfl, fun _ _ => rfl⟩
+  | cons p ps ih =>
+    intro q hne hpw
+    obtain ⟨hhead, htail⟩ := List.pairwise_cons.mp hpw
+    have hpne := hne p (List.mem_cons_self ..)
+    cases hdl : p.denoms with
+    | nil => exact absurd hdl hpne
+    | cons d0 ds =>
+      have hgid : getID H p = some (H p.addrStr d0) := by simp [getID, hdl]
+      let q1 : Reg Id := { q with pairs := q.pairs.ins (H p.addrStr d0) p, byDen := q.byDen.insAll p.denoms (H p.addrStr d0),
+                                  byErc := q.byErc.ins p.addr (H p.addrStr d0) }
+      obtain ⟨q', hq', he, hm, ha, hb, hc, hd⟩ := ih q1 (fun x hx => hne x (List.mem_cons_of_mem _ hx)) htail
+      refine ⟨q', ?_, he, hm, ?_, ?_, ?_, ?_⟩
+      · simp only [initGenesis, hgid]; exact hq'
+      · intro x hx id hid
+        rcases List.mem_cons.mp hx with rfl | hx
+        · rw [hgid] at hid; have := Option.some.inj hid; subst this
+          refine ⟨?_, ?_, ?_⟩
+          · rw [hb _ (fun y hy e => (hhead y hy).2.2 (by rw [hgid, e]))]; simp [q1, find_ins]
+          · rw [hc _ (fun y hy e => (hhead y hy).1 e.symm)]; simp [q1, find_ins]
+          · intro d hdm
+            rw [hd _ (fun y hy hin => (hhead y hy).2.1 d hdm hin)]
+            simp [q1, find_insAll, hdm]
+        · exact ha x hx id hid
+      · intro id hall
+        rw [hb id (fun y hy => hall y (List.mem_cons_of_mem _ hy))]
+        have : ¬ H p.addrStr d0 = id := fun e => hall p (List.mem_cons_self ..) (by rw [hgid, e])
+        simp [q1, find_ins, this]
+      · intro a hall
+        rw [hc a (fun y hy => hall y (List.mem_cons_of_mem _ hy))]
+        have : ¬ p.addr = a := hall p (List.mem_cons_self ..)
+        simp [q1, find_ins, this]
+      · intro d hall
+        rw [hd d (fun y hy => hall y (List.mem_cons_of_mem _ hy))]
+        have : d ∉ p.denoms := hall p (List.mem_cons_self ..)
+        simp [q1, find_insAll, this]
+
+/-- **RESTART.** Export → empty store → `InitGenesis` of a registry satisfying the invariant does not panic and gives the
+same registry back (as key-value content): a restart in the middle of a history changes nothing the property talks about. -/
+theorem restart_identity {r : Reg Id} (h : Inv H r) : ∃ r', restart H r = some r' ∧ Equiv r r' := by
+  have hmem : ∀ p, p ∈ exportGenesis r ↔ ∃ id, r.pairs.find id = some p := by
+    intro p
+    unfold exportGenesis
+    simp only [List.mem_map]
+    constructor
+    · rintro ⟨⟨k, v⟩, hm, rfl⟩; exact ⟨k, (mem_entries _ k v).mp hm⟩
+    · rintro ⟨id, hp⟩; exact ⟨(id, p), (mem_entries _ id p).mpr hp, rfl⟩
+  have hne : ∀ p, p ∈ exportGenesis r → p.denoms ≠ [] := by
+    intro p hp
+    obtain ⟨id, hid⟩ := (hmem p).mp hp
+    obtain ⟨d, ds, hds, _⟩ := getID_some H (h.keyed id p hid)
+    rw [hds]; exact List.cons_ne_nil _ _
+  have hpw : (exportGenesis r).Pairwise
+      (fun p p' => p.addr ≠ p'.addr ∧ (∀ d, d ∈ p.denoms → d ∉ p'.denoms) ∧ getID H p ≠ getID H p') := by
+    unfold exportGenesis
+    rw [List.pairwise_map]
+    refine List.Pairwise.imp_of_mem ?_ (entries_pairwise r.pairs)
+    intro e f he hf hkey
+    obtain ⟨k, p⟩ := e
+    obtain ⟨k', p'⟩ := f
+    have hp := (mem_entries _ k p).mp he
+    have hp' := (mem_entries _ k' p').mp hf
+    have hdis := (h.consistent).disjoint k k' p p' hp hp'
+    refine ⟨fun e => hkey (hdis (Or.inl e)), fun d hd hd' => hkey (hdis (Or.inr ⟨d, hd, hd'⟩)), ?_⟩
+    rw [h.keyed k p hp, h.keyed k' p' hp']
+    intro e; exact hkey (Option.some.inj e)
+  obtain ⟨r', hr', he, hm, ha, hb, hc, hd⟩ := initGenesis_spec H (exportGenesis r) (wipe r) hne hpw
+  refine ⟨r', hr', ⟨he, hm, ?_, ?_, ?_⟩⟩
+  · intro id
+    cases hf : r.pairs.find id with
+    | some p => exact (ha p ((hmem p).mpr ⟨id, hf⟩) id (h.keyed id p hf)).1
+    | none =>
+      rw [hb id]
+      · rfl
+      · intro p hp e
+        obtain ⟨k, hk⟩ := (hmem p).mp hp
+        have := h.keyed k p hk
+        rw [e] at this; have := Option.some.inj this; subst this
+        rw [hf] at hk; cases hk
+  · intro a
+    cases hf : r.byErc.find a with
+    | some id =>
+      obtain ⟨p, hp, hpa⟩ := h.ercOk a id hf
+      have := (ha p ((hmem p).mpr ⟨id, hp⟩) id (h.keyed id p hp)).2.1
+      rw [hpa] at this; exact this
+    | none =>
+      rw [hc a]
+      · rfl
+      · intro p hp e
+        obtain ⟨k, hk⟩ := (hmem p).mp hp
+        have := (h.found k p hk).1
+        rw [e, hf] at this; cases this
+  · intro d
+    cases hf : r.byDen.find d with
+    | some id =>
+      obtain ⟨p, hp, hpd⟩ := h.denOk d id hf
+      exact (ha p ((hmem p).mpr ⟨id, hp⟩) id (h.keyed id p hp)).2.2 d hpd
+    | none =>
+      rw [hd d]
+      · rfl
+      · intro p hp hin
+        obtain ⟨k, hk⟩ := (hmem p).mp hp
+        have := (h.found k p hk).2 d hin
+        rw [hf] at this; cases this
+
+theorem restart_inv {r : Reg Id} (h : Inv H r) : Inv H (step H r .restart).1 := by
+  obtain ⟨r', hr', he⟩ := restart_identity H h
+  show Inv H (match restart H r with | some r' => (r', Status.ok) | none => (r, Status.panic)).1
+  rw [hr']
+  exact h.of_equiv H he
 
 /-! ### all action sequences -/
 
@@ -566,7 +772,8 @@ theorem step_inv (hH : HashInj H) {r : Reg Id} (h : Inv H r) (a : Action) (hf : 
   | registerERC20 vb a str q s d ds mv => exact registerERC20_inv H hH h vb a str hf q s d ds mv
   | toggle vb t => exact toggleRelay_inv H h vb t
   | update vb o n ns q d1 d2 => exact updateERC20_inv H hH h vb o n ns hf q d1 d2
-  | convert t d l => exact convert_inv H h t d l
+  | convert vb t d l => exact convert_inv H h vb t d l
+  | restart => exact restart_inv H h
 
 theorem inv_run (hH : HashInj H) (as : List Action) : ∀ {r : Reg Id}, Inv H r → FreshDeploys H r as → Inv H (run H r as) := by
   induction as with
@@ -596,7 +803,7 @@ def Convertible (r : Reg Id) (d : Denom) : Prop :=
 /-- the action is the self-destruct clean-up of the pair that lists `d` -/
 def Deletes (r : Reg Id) (a : Action) (d : Denom) : Prop :=
   match a with
-  | .convert t dn l => ∃ p, mintingEnabled r t dn = some p ∧ l.contains p.addr = false ∧ d ∈ p.denoms
+  | .convert _ t dn l => ∃ p, mintingEnabled r t dn = some p ∧ l.contains p.addr = false ∧ d ∈ p.denoms
   | _ => False
 
 def NoDelete (d : Denom) : Reg Id → List Action → Prop
@@ -610,7 +817,7 @@ theorem convertible_iff {r : Reg Id} (h : Inv H r) (d : Denom) : Convertible r d
     obtain ⟨p, hp, hpd⟩ := h.denOk d id hd
     exact ⟨id, p, hd, hp, hpd, (h.found id p hp).1⟩
 
-theorem step_keeps_denom {r : Reg Id} (a : Action) (d : Denom) (id : Id) (hd : r.byDen.find d = some id)
+theorem step_keeps_denom {r : Reg Id} (h : Inv H r) (a : Action) (d : Denom) (id : Id) (hd : r.byDen.find d = some id)
     (hn : ¬ Deletes r a d) : ∃ id', (step H r a).1.byDen.find d = some id' := by
   cases a with
   | setParams b => exact ⟨id, hd⟩
@@ -667,12 +874,17 @@ theorem step_keeps_denom {r : Reg Id} (a : Action) (d : Denom) (id : Id) (hd : r
       by_cases e : d ∈ p.denoms
       · simp [e]
       · simp only [e, if_false]; exact ⟨id, hd⟩
-  | convert t dn l =>
-    show ∃ id', (convert H r t dn l).1.byDen.find d = some id'
+  | restart =>
+    obtain ⟨r', hr', he⟩ := restart_identity H h
+    show ∃ id', (match restart H r with | some r' => (r', Status.ok) | none => (r, Status.panic)).1.byDen.find d = some id'
+    rw [hr']
+    exact ⟨id, by rw [he.byDen]; exact hd⟩
+  | convert vb t dn l =>
+    show ∃ id', (convert H r vb t dn l).1.byDen.find d = some id'
     unfold convert
     repeat' (first | split | (dsimp only; split))
     all_goals try exact ⟨id, hd⟩
-    rename_i _ p hme hl _ r2 hdel
+    rename_i _ _ p hme hl _ r2 hdel
     unfold deleteTokenPair at hdel
     split at hdel
     · cases hdel
@@ -696,7 +908,7 @@ theorem convertible_back (hH : HashInj H) (d : Denom) (as : List Action) :
     intro r h hf hc hn
     have h' := step_inv H hH h a hf.1
     obtain ⟨id, hd⟩ := (convertible_iff H h d).mp hc
-    have hc' := (convertible_iff H h' d).mpr (step_keeps_denom H a d id hd hn.1)
+    have hc' := (convertible_iff H h' d).mpr (step_keeps_denom H h a d id hd hn.1)
     exact ih h' hf.2 hc' hn.2
 
 /-! ### no action panics on a consistent registry (`Denoms[0]` in GetID / UpdateTokenPairERC20, `DenomUnits[0]` in
@@ -748,12 +960,17 @@ theorem step_never_panics {r : Reg Id} (h : Inv H r) (a : Action) : (step H r a)
       unfold deleteTokenPair at hdel
       rw [h.keyed _ p hp] at hdel
       cases hdel
-  | convert t dn l =>
-    show (convert H r t dn l).2 ≠ Status.panic
+  | restart =>
+    obtain ⟨r', hr', _⟩ := restart_identity H h
+    show (match restart H r with | some r' => (r', Status.ok) | none => (r, Status.panic)).2 ≠ Status.panic
+    rw [hr']
+    intro hc; cases hc
+  | convert vb t dn l =>
+    show (convert H r vb t dn l).2 ≠ Status.panic
     unfold convert
     repeat' (first | split | (dsimp only; split))
     all_goals try (intro hc; cases hc; done)
-    rename_i _ p hme _ _ hdel
+    rename_i _ _ p hme _ _ hdel
     obtain ⟨id, hp, _, _⟩ := mintingEnabled_some hme
     rw [deleteTokenPair_stored H h hp] at hdel
     cases hdel
@@ -1011,6 +1228,23 @@ example : (step Hp (run Hp ({} : R) (registeredTarget.take 2)) (registeredTarget
 (under another name) is still rejected, because `verifyMetadata` fails on every denomination that has metadata -/
 example : (step Hp (run Hp ({} : R) (multiDenom.take 2))
     (.registerCoin true true false true e2 s2 { ccoin with name := "other" })).2 = Status.err := by decide
+
+/-- a restart in the middle of a history (non-vacuity of `restart_identity`; the histories of `consistent_run` may
+contain `.restart` anywhere): after RegisterERC20, AddCoin, update the restarted registry answers as before, and a history
+with a restart between every two actions is covered by `consistent_from_genesis`. -/
+example : (restart Hp (run Hp ({} : R) multiDenom)).map (fun r => (r.byDen.find "ccoin", r.byErc.find e3, r.pairs.find (s3, "agg/e1")))
+    = some (some (s3, "agg/e1"), some (s3, "agg/e1"), some ⟨s3, ["agg/e1", "ccoin"], true, 2⟩) := by decide
+
+def multiDenomRestarts : List Action :=
+  [ .registerERC20 true e1 s1 (some usdx) "usdx" "agg/e1" "desc/e1" true, .restart,
+    .addCoin true true false e1Str ccoin, .restart,
+    .update true e1 e3 s3 (some usdx) "desc/e1" "desc/e3", .restart ]
+
+example : Consistent (run Hp ({} : R) multiDenomRestarts) :=
+  consistent_from_genesis Hp hp_inj multiDenomRestarts
+    ⟨(by show addrOf s1 = e1; decide), True.intro, True.intro, True.intro, (by show addrOf s3 = e3; decide), True.intro, True.intro⟩
+
+example : (run Hp ({} : R) multiDenomRestarts).byDen.find "ccoin" = some (s3, "agg/e1") := by decide
 
 /-! #### genesis files: spellings of an address -/
 
